@@ -113,7 +113,10 @@ class _STIXBase(collections.abc.Mapping):
 
     def _check_object_constraints(self):
         for m in self.get('granular_markings', []):
-            validate(self, m.get('selectors'))
+            # (where the type does not define granular_markings this is an
+            # unvalidated custom property and may hold anything)
+            if isinstance(m, collections.abc.Mapping):
+                validate(self, m.get('selectors'))
 
     def __init__(self, allow_custom=False, interoperability=False, **kwargs):
         cls = self.__class__
